@@ -168,6 +168,14 @@ def d1_stash_hook(ctx, repo, wname):
             defs = [d for d in A.walk_stmts(node.body) if isinstance(d, ast.Assign) and any(isinstance(t, ast.Name) and t.id == e.id for t in d.targets)]
             if len(defs) == 1:
                 return expand(defs[0].value, depth + 1)
+            if len(defs) == 2:
+                # `if c: x = a` / `else: x = b`: the name stands for `a if c else b`
+                pmn = A.parents(node)
+                up = pmn.get(defs[0])
+                if isinstance(up, ast.If) and pmn.get(defs[1]) is up and defs[0] in up.body and defs[1] in up.orelse and len(up.body) == len(up.orelse) == 1:
+                    return ast.IfExp(test=expand(up.test, depth + 1), body=expand(defs[0].value, depth + 1), orelse=expand(defs[1].value, depth + 1))
+        if isinstance(e, ast.IfExp):
+            return ast.IfExp(test=expand(e.test, depth), body=expand(e.body, depth), orelse=expand(e.orelse, depth))
         if isinstance(e, ast.BoolOp):
             return ast.BoolOp(op=e.op, values=[expand(v, depth) for v in e.values])
         if isinstance(e, ast.UnaryOp) and isinstance(e.op, ast.Not):
@@ -179,7 +187,8 @@ def d1_stash_hook(ctx, repo, wname):
     a_unseen = f"{msgp}.obj not in {store_in_hook}"
     bad = None
     for v_set, v_none, v_in, v_seen in itertools.product([True, False], repeat=4):
-        env = {a_set: v_set, a_none: v_none, a_in: v_in, a_seen: v_seen, a_unseen: not v_seen}
+        env = {a_set: v_set, a_none: v_none, a_in: v_in, a_seen: v_seen, a_unseen: not v_seen, f"{devs} is not None": not v_none,
+               f"{msgp}.command != 'set'": not v_set, f"{msgp}.obj not in {devs}": not v_in}
         got = booleval.ev(test, env)
         want = v_set and (v_none or v_in) and not v_seen
         if got is None:
@@ -219,12 +228,14 @@ def run(ctx):
     ok = bool(ifs) and A.norm(ifs[0].test) == "msg.command == 'set' and msg.obj in initial_positions"
     ctx.ob("C24.D1-offset-from-initial", cname(rp, None, "only 'set' messages of stashed devices are rewritten"), ok, "" if ok else "rewrite condition changed", where=where(rp, rp.node))
     body = [A.norm(s) for s in (ifs[0].body if ifs else [])]
-    ok = "abs_pos = initial_positions[msg.obj] + rel_pos" in body or "abs_pos = rel_pos + initial_positions[msg.obj]" in body
+    rets_ = [x for x in (ifs[0].body if ifs else []) if isinstance(x, ast.Return) and x.value is not None]
+    ret_full = A.norm(q.expand(rp.node, rets_[-1].value, keep=("rel_pos", "msg"))) if rets_ else ""
+    ok = ret_full in ("msg._replace(args=(initial_positions[msg.obj] + rel_pos,))", "msg._replace(args=(rel_pos + initial_positions[msg.obj],))")
     ctx.ob("C24.D1-offset-from-initial", cname(rp, None, "target = stashed initial position + requested offset"), ok,
            "" if ok else f"rewrite computes {body}", nontrivial=True, where=where(rp, rp.node))
     rets = [x for x in (ifs[0].body if ifs else []) if isinstance(x, ast.Return) and x.value is not None]
     ok = any(t.replace("(rel_pos,)", "rel_pos,") in ("rel_pos, = msg.args", "(rel_pos,) = msg.args") or t == "(rel_pos,) = msg.args" for t in body) and \
-        bool(rets) and A.norm(q.expand(rp.node, rets[-1].value, keep=("abs_pos", "rel_pos", "msg"))) == "msg._replace(args=(abs_pos,))"
+        bool(rets) and ret_full.startswith("msg._replace(args=(") and ret_full.endswith(",))")
     ctx.ob("C24.D1-offset-from-initial", cname(rp, None, "the offset is the message's single argument; the rewritten message is returned"), ok, "" if ok else "argument handling changed", where=where(rp, rp.node))
     ok = bool(ifs) and ifs[0].orelse and A.norm(ifs[0].orelse[-1]) == "return msg"
     ctx.ob("C24.D1-offset-from-initial", cname(rp, None, "other messages pass unchanged"), ok, "" if ok else "other messages altered", where=where(rp, rp.node))
@@ -236,7 +247,7 @@ def run(ctx):
     d1_pseudo_family(ctx, repo, st)
     txt = A.norm(rw.node)
     i1, i2 = txt.find("plan = plan_mutator(plan, insert_reads)"), txt.find("plan = msg_mutator(plan, rewrite_pos)")
-    ok = 0 <= i1 < i2
+    ok = 0 <= i1 < i2 or "msg_mutator(plan_mutator(plan, insert_reads), rewrite_pos)" in txt
     ctx.ob("C24.D1-offset-from-initial", cname(rw, None, "reads inserted (inner), positions rewritten (outer)"), ok,
            "" if ok else "mutator order changed: the rewrite would see sets before their position is stashed", where=where(rw, rw.node))
     # D2
